@@ -20,13 +20,21 @@ def written(st, lo=None, hi=None):
         out.append((a, n))
     return out
 
+def net_changed(ex, st, snap, w):
+    """a logged write counts only if it leaves the bytes different from the pre-state (a reference count that goes up and down again is no change)"""
+    a, n = w
+    try:
+        if any(True for _ in ex._overlap(st, a, n)): return True
+        return bytes(ex.read_bytes(st, a, n)) != bytes(snap.read(a, n))
+    except Exception: return True
+
 def inside(w, regions):
     a, n = w
     return any(r0 <= a and a + n <= r1 for r0, r1 in regions)
 
-def frame(res, name, st, snap, allowed, key):
+def frame(res, name, st, snap, allowed, key, ex=None):
     a0, an = snap.arena
-    bad = [w for w in written(st, a0, a0 + an) if not inside(w, allowed)]
+    bad = [w for w in written(st, a0, a0 + an) if not inside(w, allowed) and (ex is None or net_changed(ex, st, snap, w))]
     res.obs.append(Ob('%s writes nothing outside %d allowed region(s) of the pre-existing objects (%d writes logged)' % (name, len(allowed), len(st.wlog)), 'holds' if not bad else 'violated', key=key,
                       detail='' if not bad else 'writes at %s' % [(hex(a), n) for a, n in bad[:4]], cex=None if not bad else {'replay': 'frame', 'call': name, 'writes': [(hex(a), n) for a, n in bad[:8]]}))
     res.paths += 1; res.instrs += st.nins
@@ -43,7 +51,7 @@ def job_ps_observers(res, n, nb, pat):
            'integral': (R['integral'], R['integral'] + 4), 'moment': (R['moment'], R['moment'] + 32 * nb), 'rms': (R['rms'], R['rms'] + 8 * nb)}
     for fn, args, allowed in (('e_integrate', [ps], ['filling', 'integral']), ('e_variance', [ps, 0], ['moment', 'rms']), ('e_updy', [ps], ['projy']), ('e_variance', [ps, 1], ['moment', 'rms'])):
         st = sym_state(); st.wlog = []; st = ex.run1(st, fn, args)
-        frame(res, 'PhaseSpace::%s%s n=%d nb=%d' % (fn[2:], tuple(args[1:]), n, nb), st, snap, [reg[k] for k in allowed], 'frame-phasespace')
+        frame(res, 'PhaseSpace::%s%s n=%d nb=%d' % (fn[2:], tuple(args[1:]), n, nb), st, snap, [reg[k] for k in allowed], 'frame-phasespace', ex)
     # integrate is idempotent: the extra call in the output block restores exactly what the loop head left
     st = sym_state(); s1 = ex.run1(st, 'e_integrate', [ps]); f1 = get_reals(ex, s1, R['filling'], nb) + get_reals(ex, s1, R['integral'], 1)
     s2 = ex.run1(s1, 'e_integrate', [ps]); f2 = get_reals(ex, s2, R['filling'], nb) + get_reals(ex, s2, R['integral'], 1)
@@ -63,7 +71,7 @@ def job_field_observers(res, n, N, spacing, buckets):
     # allowed: everything that is not the phase space, the impedance or the wake map, i.e. the field's own buffers: express as "not in these allocations"
     forbidden = [alloc_of(snap, R[k]) for k in ('proj0', 'zdata', 'wpm_force', 'wp_padded')]
     a0, an = snap.arena
-    bad = [w for w in written(st, a0, a0 + an) if any(f and f[0] <= w[0] < f[0] + f[1] for f in forbidden)]
+    bad = [w for w in written(st, a0, a0 + an) if any(f and f[0] <= w[0] < f[0] + f[1] for f in forbidden) and net_changed(ex, st, snap, w)]
     res.obs.append(Ob('ElectricField::updateCSR n=%d N=%d buckets %s writes nothing into the phase space projections, the impedance, the wake buffers or the wake map (%d writes logged)' % (n, N, list(buckets), len(st.wlog)),
                       'holds' if not bad else 'violated', key='frame-updateCSR', cex=None if not bad else {'replay': 'frame', 'writes': [(hex(a), k) for a, k in bad[:8]]}))
     res.paths += 1; res.instrs += st.nins
@@ -76,7 +84,7 @@ def job_h5_observers(res, n, nb, N, npart):
     for fn, args in (('e_append_ps', [h5, R['psobj'], Fraction(1, 4), 0]), ('e_append_ps', [h5, R['psobj'], Fraction(1, 2), 1]), ('e_append_ef', [h5, R['rdtn']]), ('e_append_wkm', [h5, R['wkm']]), ('e_append_tracks', [h5, R['tracks']]),
                      ('e_append_rf', [h5, R['kicks']]), ('e_append_padded', [h5, R['wake']])):
         st.wlog = []; st = ex.run1(st, fn, args)
-        bad = written(st, a0, a0 + an)
+        bad = [w for w in written(st, a0, a0 + an) if net_changed(ex, st, snap, w)]
         res.obs.append(Ob('HDF5File::%s n=%d nb=%d: writes nothing into any pre-existing object (phase space, fields, maps, particles): only the file object and temporaries (%d writes logged)' % (fn[2:], n, nb, len(st.wlog)),
                           'holds' if not bad else 'violated', key='frame-hdf5', cex=None if not bad else {'replay': 'frame', 'call': fn, 'writes': [(hex(a), k) for a, k in bad[:8]]}))
         res.paths += 1
@@ -94,7 +102,7 @@ def job_map_observers(res, n, it, fptrack):
         st.sym[R['pos']] = (4, 'f', px); st.sym[R['pos'] + 4] = (4, 'f', py); st.wlog = []
         sts = run_paths(ex, st, 'e_applyTo', [R[what], R['pos']])
         bad = []
-        for s in sts: bad += [w for w in written(s, a0, a0 + an) if not inside(w, [(R['pos'], R['pos'] + 8)])]
+        for s in sts: bad += [w for w in written(s, a0, a0 + an) if not inside(w, [(R['pos'], R['pos'] + 8)]) and net_changed(ex, s, snap, w)]
         res.obs.append(Ob('%s::applyTo (n=%d, tracking model %d): writes only the particle position (%d paths)' % (what, n, fptrack, len(sts)), 'holds' if not bad else 'violated', key='frame-applyTo',
                           cex=None if not bad else {'replay': 'frame', 'call': what, 'writes': [(hex(a), k) for a, k in bad[:8]]}))
         res.paths += len(sts); res.instrs += sum(s.nins for s in sts)
